@@ -156,7 +156,19 @@ def package_mutants(rng, ast, model, n):
             out.append(("orders_" + k, with_snapshot(set_key(snap, "orders", o2))))
         elif r < 0.62:
             # an altered snapshot whose checksum the fault recomputed: acceptance is expected
-            k, s2 = jsn.mutate(rng, snap)
+            if rng.random() < 0.35:
+                # a sealed but SELF-INCONSISTENT snapshot: the order list emptied / shortened / grown while the stored
+                # count and totals stay (a valid checksum says nothing about consistency)
+                k = rng.choice(["inconsistent_no_orders", "inconsistent_one_less", "inconsistent_count_zero"])
+                o2 = jsn.clone(orders)
+                if k == "inconsistent_no_orders":
+                    s2 = set_key(snap, "orders", [])
+                elif k == "inconsistent_one_less" and o2:
+                    s2 = set_key(snap, "orders", o2[:-1])
+                else:
+                    s2 = set_key(snap, "order_count", 0)
+            else:
+                k, s2 = jsn.mutate(rng, snap)
             d = model.ask("OFJSON snapshot " + hx(jsn.dump(s2)))
             if d.startswith("ok "):
                 ser = model.ask("SER " + d[3:])
@@ -404,11 +416,11 @@ def run(tier, seed, replay=None):
                                                 "uuid / ulid formats (same id: restores identically; other id / near miss: rejected)"))
                 if x == "err":
                     ast_tot["rejected"] += 1
-                elif k.startswith("rehash"):
-                    ast_tot["accepted_rehash"] += 1     # the fault recomputed the digest: a legitimate package
                 elif x == "panic":
                     viol.append(dict(kind="restore", how="structural edit: " + k, base_text_hex=t1, mutant_text_hex=hx(t), profile=prof,
                                      why="from_snapshot_json panicked instead of reporting an error"))
+                elif k.startswith("rehash"):
+                    ast_tot["accepted_rehash"] += 1     # the fault recomputed the digest: a legitimate package
                 elif x != base_ans:
                     viol.append(dict(kind="restore", how="structural edit: " + k, base_text_hex=t1, mutant_text_hex=hx(t), profile=prof,
                                      original=base_ans, restored=x,
